@@ -13,9 +13,17 @@ from ..core.program import AnalysisError, AnchorError, is_self_attr, norm, paren
 EX = "ForestRuleExtractor"
 
 
+class UnorderedMinimizeOrder(Exception):
+    def __init__(self, node):
+        super().__init__("MINIMIZE_ORDER is a set")
+        self.node = node
+
+
 def _minimize_order(P) -> List[str]:
     cls = P.need_class(EX)
     v = cls.class_attrs.get("MINIMIZE_ORDER")
+    if isinstance(v, (ast.Set, ast.SetComp)) or (isinstance(v, ast.Call) and isinstance(v.func, ast.Name) and v.func.id in ("set", "frozenset")):
+        raise UnorderedMinimizeOrder(v)
     if v is None or not isinstance(v, (ast.Tuple, ast.List)):
         raise AnchorError("ForestRuleExtractor.MINIMIZE_ORDER is no longer a literal tuple")
     out = []
@@ -29,7 +37,10 @@ def _minimize_order(P) -> List[str]:
 
 def e1_bucket_exhaustiveness(ctx) -> None:
     P = ctx.P
-    order = _minimize_order(P)
+    try:
+        order = _minimize_order(P)
+    except UnorderedMinimizeOrder as u:
+        order = [e.attr for e in getattr(u.node, "elts", []) if isinstance(e, ast.Attribute)]
     produced: Set[str] = set()
     n = 0
     for fi in P.all_functions():
@@ -74,7 +85,12 @@ def e1_bucket_exhaustiveness(ctx) -> None:
 
 def e2_reverse_first(ctx) -> None:
     P = ctx.P
-    order = _minimize_order(P)
+    try:
+        order = _minimize_order(P)
+    except UnorderedMinimizeOrder as u:
+        ctx.violation("E2", u.node, "MINIMIZE_ORDER is a set: the buckets are minimised in hash order, so REVERSE is not guaranteed to come first and the rules chosen differ "
+                      "from one interpreter (hash seed) to the next")
+        return
     if order and order[0] == "REVERSE":
         ctx.ok("E2", f"REVERSE is minimised first (order {order})")
     else:
